@@ -193,7 +193,12 @@ func genCompilable(g *G) *cFile {
 		names := map[string]bool{}
 		hasMux := false
 		for s := 0; s < ns; s++ {
-			sg := &cSig{name: g.camel(), size: 1 + g.R.Intn(64), be: g.R.Bool(), signed: g.R.Bool(), factor: pickF(g), offset: pickF(g), min: "0", max: "0",
+			nm := g.camel()
+			if g.R.Intn(2) == 0 {
+				// names shared between messages (Counter, Checksum, ... are common in real databases)
+				nm = g.R.Pick("Counter", "Checksum", "Status", "Mode", "Value")
+			}
+			sg := &cSig{name: nm, size: 1 + g.R.Intn(64), be: g.R.Bool(), signed: g.R.Bool(), factor: pickF(g), offset: pickF(g), min: "0", max: "0",
 				unit: g.R.Pick("", "km/h", "°", "V"), recv: []string{node()}}
 			if sg.factor == "0" {
 				sg.factor = "1"
